@@ -84,28 +84,32 @@ def findByte (c : UInt8) (l : Bytes) : Option Nat :=
   | x :: t => if x = c then some 0 else (findByte c t).map (· + 1)
 
 /-- `try_get_value (buf, key, &dst)` for `dst == NULL`: scans for `key="value"`
-    (key at the start or preceded by a space).  `none` = destination left NULL. -/
-def tryGetValueGo (key : Bytes) (prev : Option UInt8) : Bytes → Option Bytes
-  | [] => none
-  | c :: t =>
+    (key at the start or preceded by a space, and — fix C15_hdrparse — not inside the quoted
+    value of another parameter: `inq` = the scan is inside such a quoted string, whose closing
+    quote exists).  `none` = destination left NULL. -/
+def tryGetValueGo (key : Bytes) : Bool → Option UInt8 → Bytes → Option Bytes
+  | _, _, [] => none
+  | true, _, c :: t => tryGetValueGo key (c != cQuote) (some c) t
+  | false, prev, c :: t =>
     let rest := c :: t
-    if key.isPrefixOf rest ∧ rest[key.length]? = some cEq ∧ (prev = none ∨ prev = some cSp) then
+    if c = cQuote then
+      if t.contains cQuote then tryGetValueGo key true (some c) t else none   -- no end-quote: return
+    else if key.isPrefixOf rest ∧ rest[key.length]? = some cEq ∧ (prev = none ∨ prev = some cSp) then
       if rest[key.length + 1]? = some cQuote then
         let v := rest.drop (key.length + 2)
         if v.contains cQuote then some (v.takeWhile (· ≠ cQuote)) else none
       else none
-    else tryGetValueGo key (some c) t
+    else tryGetValueGo key false (some c) t
 
 def tryGetValue (buf key : Bytes) (dst : Option Bytes) : Option Bytes :=
   match dst with
   | some d => some d
-  | none => tryGetValueGo key none buf
+  | none => tryGetValueGo key false none buf
 
-/-- `try_match_header (prefix, len, line, &suffix)` for `suffix == NULL`:
-    the prefix may match at *any* position of the line. -/
-def tryMatchGo (pfx : Bytes) : Bytes → Option Bytes
-  | [] => none
-  | c :: t => if eqCaselessN pfx (c :: t) pfx.length then some ((c :: t).drop pfx.length) else tryMatchGo pfx t
+/-- `try_match_header (prefix, len, line, &suffix)` for `suffix == NULL`
+    (fix C15_hdrparse: the prefix is matched at the start of the line only). -/
+def tryMatchGo (pfx : Bytes) (line : Bytes) : Option Bytes :=
+  if eqCaselessN pfx line pfx.length then some (line.drop pfx.length) else none
 
 def tryMatchHeader (pfx line : Bytes) (suffix : Option Bytes) : Option Bytes :=
   match suffix with
